@@ -603,7 +603,7 @@ func (proxy *Server) addHandler(w http.ResponseWriter, r *http.Request) {
 		"",
 		"Cluster",
 		"Unpin",
-		root,
+		api.PinCid(root),
 		&pinObj,
 	)
 	if err != nil {
